@@ -53,20 +53,21 @@ const (
 var NearMissNames = []string{"", "Content-Lengthx", "Xontent-Length", "Content_Length", "Transfer-Encodin", "Ransfer-Encoding", "Content\rLength", "Transfer\rEncoding", "Content-Length-", "Transfer_Encoding"}
 
 type Spec struct {
-	Method      string `json:"m"`
-	V10         bool   `json:"v10,omitempty"`
-	KeepAl10    bool   `json:"ka10,omitempty"` // HTTP/1.0 with Connection: keep-alive
-	Target      string `json:"t"`
-	Framing     int    `json:"f"`
-	BodyLen     int    `json:"n"`
-	Part        int    `json:"p,omitempty"`
-	CLName      int    `json:"cn,omitempty"`
-	NearMiss    int    `json:"nm,omitempty"`
-	Extra       int    `json:"x,omitempty"`
-	Close       bool   `json:"close,omitempty"`
-	ID          string `json:"id"`
-	TENameMixed bool   `json:"temix,omitempty"`
-	TrName      string `json:"trname,omitempty"` // trailer field name (default X-Tr)
+	Method        string `json:"m"`
+	V10           bool   `json:"v10,omitempty"`
+	KeepAl10      bool   `json:"ka10,omitempty"` // HTTP/1.0 with Connection: keep-alive
+	Target        string `json:"t"`
+	Framing       int    `json:"f"`
+	BodyLen       int    `json:"n"`
+	Part          int    `json:"p,omitempty"`
+	CLName        int    `json:"cn,omitempty"`
+	NearMiss      int    `json:"nm,omitempty"`
+	Extra         int    `json:"x,omitempty"`
+	Close         bool   `json:"close,omitempty"`
+	ID            string `json:"id"`
+	TENameMixed   bool   `json:"temix,omitempty"`
+	TrName        string `json:"trname,omitempty"`         // trailer field name (default X-Tr)
+	TrUnannounced bool   `json:"tr_unannounced,omitempty"` // FChunkedTrailer without a Trailer header field: the section must be consumed, its delivery is not demanded
 }
 
 type Expect struct {
@@ -221,7 +222,7 @@ func Build(s Spec) ([]byte, Expect) {
 		if trName == "" {
 			trName = "X-Tr"
 		}
-		if s.Framing == FChunkedTrailer {
+		if s.Framing == FChunkedTrailer && !s.TrUnannounced {
 			w.WriteString("Trailer: " + trName + "\r\n")
 		}
 		if s.TENameMixed {
@@ -244,7 +245,9 @@ func Build(s Spec) ([]byte, Expect) {
 		w.WriteString("0\r\n")
 		if s.Framing == FChunkedTrailer {
 			w.WriteString(trName + ": tv\r\n")
-			ex.Trailers = append(ex.Trailers, httpref.Header{Name: trName, Value: "tv"})
+			if !s.TrUnannounced {
+				ex.Trailers = append(ex.Trailers, httpref.Header{Name: trName, Value: "tv"})
+			}
 		}
 		w.WriteString("\r\n")
 	default:
